@@ -264,6 +264,20 @@ func runCheck(id, tier, repoDir, verifDir string, debug, claim, keep bool) int {
 		}
 		if ct.NoVerify {
 			assumedContracts = append(assumedContracts, k)
+			if len(ct.Asserts) == 0 && len(ct.Loops) == 0 {
+				continue
+			}
+			// an assumed contract that pins calls made by the body ("at call ..."):
+			// frame and postconditions stay assumed, the call-site assertions are
+			// checked against the real body
+			// (verified against a copy of the contract without frame and
+			// postconditions, so that no frame obligation is generated - and none
+			// assumed - for this body; the vacuity covers stay on)
+			ct2 := *ct
+			ct2.HasMods, ct2.Mods, ct2.Ensures, ct2.NoVerify = false, nil, nil, false
+			r := w.verifyFunction(fn, &ct2, id, false)
+			r.Contract = ct
+			results = append(results, r)
 			continue
 		}
 		tv0 := time.Now()
